@@ -21,6 +21,16 @@ func init() {
 	}, runC13)
 
 	addVariants(
+		Variant{ID: "c13-r3-rejects-empty-at-end", Prop: "C13", File: "replication/binlog_event_rbr.go",
+			Old: "\t\tif metadata > 255 {\n\t\t\tl := int(uint64(data[pos]) |\n\t\t\t\tuint64(data[pos+1])<<8)\n\t\t\treturn data[pos+2 : pos+2+l], l + 2, nil",
+			New: "\t\tif metadata > 255 {\n\t\t\tif pos+2 >= len(data) {\n\t\t\t\treturn nil, 0, fmt.Errorf(\"truncated\")\n\t\t\t}\n\t\t\tl := int(uint64(data[pos]) |\n\t\t\t\tuint64(data[pos+1])<<8)\n\t\t\treturn data[pos+2 : pos+2+l], l + 2, nil",
+			Expect: "C13-R3 accepts@TypeVar"},
+		Variant{ID: "c13-r3-rejects-content", Prop: "C13", File: "replication/binlog_event_rbr.go",
+			Old: "\t\tl := int(data[pos])\n\t\treturn data[pos+1 : pos+1+l], l + 1, nil\n\n\tcase TypeBit:", New: "\t\tl := int(data[pos])\n\t\tif l > 0 && data[pos+1] == 0 {\n\t\t\treturn nil, 0, fmt.Errorf(\"NUL in text\")\n\t\t}\n\t\treturn data[pos+1 : pos+1+l], l + 1, nil\n\n\tcase TypeBit:",
+			Expect: "C13-R3 accepts@TypeVar"},
+		Variant{ID: "c13-r2-stop-after-last-logged-column", Prop: "C13", File: "streamer.go",
+			Old: "\tfor c := 0; c < rs.DataColumns.Count(); c++ {", New: "\tfor c := 0; c < rs.DataColumns.Count() && valueIndex < rs.DataColumns.BitCount(); c++ {",
+			Expect: "C13-R2 full-scan@getValuesFromRow"},
 		Variant{ID: "c13-r1-string-boundary", Prop: "C13", File: "replication/binlog_event_rbr.go",
 			Old:    "\t\t// This is a real string. The length is weird.\n\t\tmax := int((((metadata >> 4) & 0x300) ^ 0x300) + (metadata & 0xff))\n\t\t// Length is encoded in 1 or 2 bytes.\n\t\tif max > 255 {\n\t\t\tl := int(uint64(data[pos]) |\n\t\t\t\tuint64(data[pos+1])<<8)\n\t\t\treturn data[pos+2 : pos+2+l], l + 2, nil",
 			New:    "\t\t// This is a real string. The length is weird.\n\t\tmax := int((((metadata >> 4) & 0x300) ^ 0x300) + (metadata & 0xff))\n\t\t// Length is encoded in 1 or 2 bytes.\n\t\tif max > 255 {\n\t\t\tl := int(uint64(data[pos]) |\n\t\t\t\tuint64(data[pos+1])<<8)\n\t\t\treturn data[pos+2 : pos+1+l], l + 2, nil",
@@ -80,6 +90,7 @@ func c13R1(a *A, cd *codec) {
 	w := a.W
 	strTypes := map[string]bool{"TypeVarchar": true, "TypeVarString": true, "TypeString": true, "TypeTinyBlob": true, "TypeMediumBlob": true, "TypeLongBlob": true, "TypeBlob": true, "TypeGeometry": true}
 	per := map[string][2]int{}
+	rej := map[string][2]int{}
 	n := 0
 	for _, s := range cd.domain(a.Tier) {
 		name := cd.typeName[s.Typ]
@@ -115,6 +126,15 @@ func c13R1(a *A, cd *codec) {
 			a.viol(rule, fmt.Sprintf("verbatim@%s[md=%d]", name, s.Md), pos, "the value is %s; the logged bytes are %s (a %d-byte length prefix, then exactly that many bytes, untransformed)", got, want, k)
 		}
 		per[name] = c
+		// R3: a string cell that fits the buffer is never rejected, whatever its content
+		if len(rets) == 1 {
+			c13R3(a, cd, rv, rets[0], name, s.Md, rej)
+		}
+	}
+	for name, c := range rej {
+		if c[1] == 0 {
+			a.hold("C13-R3", "accepts@"+name, w.pos(cd.valFn.Pos()), "no failing exit, or failing exits only when the cell does not fit the buffer, for all %d metadata values", c[0])
+		}
 	}
 	for name, c := range per {
 		if c[0] == c[1] {
@@ -127,6 +147,205 @@ func c13R1(a *A, cd *codec) {
 	}
 	a.Extra["string_specialisations"] = n
 	a.Extra["distinct_cases"] = n
+}
+
+// c13R3: under one (type, metadata) specialisation every reachable failing exit of the decoder must be justified by a
+// dominating condition that implies "the cell (prefix + announced length) does not fit the buffer": with E <= 0 the
+// rejecting condition and C the length the success exit consumes, E - (len(data) - pos - C + 1) must be non-negative
+// for all byte contents. Anything else rejects (a prefix of) well-formed input - e.g. an empty value at the end of the
+// row image - and the row conversion aborts.
+func c13R3(a *A, cd *codec, rv *Result, okRet *ssa.Return, name string, md int64, rej map[string][2]int) {
+	const rule = "C13-R3"
+	w := a.W
+	t := newTB(rv)
+	t.names[cd.valFn.Params[0]] = "data"
+	t.names[cd.valFn.Params[1]] = "pos"
+	consumed := t.term(okRet.Results[1])
+	c := rej[name]
+	c[0]++
+	defer func() { rej[name] = c }()
+	if !consumed.ok {
+		return // R1 / C09 report a length that is not a term
+	}
+	fit := affAtom("len(data)").add(affAtom("pos"), -1).add(consumed, -1).add(affConst(1), 1)
+	nonNeg := func(d aff) bool {
+		if !d.ok || d.c < 0 {
+			return false
+		}
+		for s, k := range d.syms {
+			if k < 0 || !(strings.HasPrefix(s, "data[") || strings.HasPrefix(s, "LE(") || strings.HasPrefix(s, "BE(")) {
+				return false
+			}
+		}
+		return true
+	}
+	for _, ret := range rv.Returns {
+		if len(ret.Results) < 3 || rv.isNil(ret.Results[2]) {
+			continue
+		}
+		justified := false
+		var seen []string
+		for _, ce := range dominatingConds(ret.Block()) {
+			if l := rv.get(ce.Cond); l.k == cst {
+				continue
+			}
+			bo, ok := ce.Cond.(*ssa.BinOp)
+			if !ok {
+				seen = append(seen, condTerm(t, ce.Cond))
+				continue
+			}
+			e, ok := t.leqZeroAff(bo, !ce.Val)
+			if !ok {
+				seen = append(seen, condTerm(t, ce.Cond))
+				continue
+			}
+			seen = append(seen, e.String()+" <= 0")
+			if nonNeg(e.add(fit, -1)) {
+				justified = true
+			}
+		}
+		if !justified {
+			c[1]++
+			a.viol(rule, fmt.Sprintf("accepts@%s[md=%d]", name, md), w.posOf(ret), "a %s cell can be rejected although it fits the buffer (failing exit under %v; the cell occupies %s bytes from pos): a value the master logged - e.g. an empty one at the end of the row image - aborts the row conversion",
+				name, seen, consumed.String())
+			return
+		}
+	}
+}
+
+// c13FullScan: the column loop of an image decoder visits every column ordinal. The only way out of the loop towards a
+// success return is the failing edge of "ordinal < N" with N the size of the presence bitmap (or a len()); an exit that
+// depends on anything else - e.g. "all logged columns seen" - drops the trailing absent columns from the delivered row.
+func c13FullScan(a *A, rl *rowLoop, fn string) {
+	const rule = "C13-R2"
+	w := a.W
+	key := "full-scan@" + fn
+	inLoop := map[*ssa.BasicBlock]bool{}
+	for _, b := range rl.Fn.Blocks {
+		if rl.Header.Dominates(b) && (b == rl.Header || reachesAvoiding(b, rl.Header, nil, nil)) {
+			inLoop[b] = true
+		}
+	}
+	// can a success return be reached from b without re-entering the loop?
+	succReach := func(b *ssa.BasicBlock) bool {
+		seen := map[*ssa.BasicBlock]bool{}
+		var dfs func(x *ssa.BasicBlock) bool
+		dfs = func(x *ssa.BasicBlock) bool {
+			if seen[x] || inLoop[x] {
+				return false
+			}
+			seen[x] = true
+			if ret, ok := lastInstr(x).(*ssa.Return); ok {
+				n := len(ret.Results)
+				if n == 0 || !isErrType(ret.Results[n-1].Type()) {
+					return true
+				}
+				ev := resolve(ret.Results[n-1])
+				if isNilConst(ev) {
+					return true
+				}
+				if nonNilAt(ev, x) {
+					return false
+				}
+				if c, ok := ev.(*ssa.Call); ok {
+					if f := c.Common().StaticCallee(); f != nil && f.Pkg != nil && (f.Pkg.Pkg.Path() == "fmt" && f.Name() == "Errorf" || f.Pkg.Pkg.Path() == "errors" && f.Name() == "New") {
+						return false
+					}
+				}
+				return true
+			}
+			for _, s := range x.Succs {
+				if dfs(s) {
+					return true
+				}
+			}
+			return false
+		}
+		return dfs(b)
+	}
+	nExit, bad := 0, ""
+	var badPos ssa.Instruction
+	for _, b := range rl.Fn.Blocks {
+		if !inLoop[b] {
+			continue
+		}
+		for k, sc := range b.Succs {
+			if inLoop[sc] || !succReach(sc) {
+				continue
+			}
+			nExit++
+			iff, _ := lastInstr(b).(*ssa.If)
+			ok := false
+			why := "the exit is not a comparison of the column ordinal"
+			if iff != nil {
+				cond, val := iff.Cond, k == 0
+				for {
+					u, isNot := cond.(*ssa.UnOp)
+					if !isNot || u.Op != token.NOT {
+						break
+					}
+					cond, val = u.X, !val
+				}
+				if bo, isB := cond.(*ssa.BinOp); isB {
+					x, y, op := bo.X, bo.Y, bo.Op
+					if y == ssa.Value(rl.C) { // N > c
+						x, y = y, x
+						switch op {
+						case token.GTR:
+							op = token.LSS
+						case token.LEQ:
+							op = token.GEQ
+						default:
+							op = token.ILLEGAL
+						}
+					}
+					// leaves when !(c < N), i.e. c >= N
+					leaves := (op == token.LSS && !val) || (op == token.GEQ && val)
+					if x == ssa.Value(rl.C) && leaves {
+						switch n := stripW(y).(type) {
+						case *ssa.Call:
+							f := n.Common().StaticCallee()
+							switch {
+							case f != nil && f.Name() == "Count" && f.Signature.Recv() != nil && typeIs(f.Signature.Recv().Type(), replPath, "Bitmap"):
+								ok = true
+							case isBuiltin(n.Common(), "len"):
+								ok = true
+							default:
+								why = "the bound of the ordinal is " + describe(y) + ", not the size of the presence bitmap or a length"
+							}
+						case *ssa.Const, *ssa.Parameter:
+							ok = true
+						default:
+							if !inLoop[instrBlock(y)] {
+								ok = true // computed before the loop
+							} else {
+								why = "the bound of the ordinal is recomputed in the loop from " + describe(y)
+							}
+						}
+					}
+				}
+			}
+			if !ok && bad == "" {
+				bad = why
+				badPos = lastInstr(b)
+			}
+		}
+	}
+	switch {
+	case nExit == 0:
+		a.undecided(rule, key, w.posOf(rl.Len), "no exit of the column loop towards a success return found")
+	case bad != "":
+		a.viol(rule, key, w.posOf(badPos), "the column loop can be left towards a success return before every column ordinal was visited (%s): trailing absent columns are missing from the delivered row instead of being flagged absent", bad)
+	default:
+		a.hold(rule, key, w.posOf(rl.Len), "%d exit(s) towards success, all on 'ordinal reached the column count'", nExit)
+	}
+}
+
+func instrBlock(v ssa.Value) *ssa.BasicBlock {
+	if in, ok := v.(ssa.Instruction); ok {
+		return in.Block()
+	}
+	return nil
 }
 
 func c13R2(a *A, cd *codec) {
@@ -144,6 +363,7 @@ func c13R2(a *A, cd *codec) {
 			a.undecided(rule, "three-way@"+fn, w.posOf(rl.Len), "loop shape not recognised")
 			continue
 		}
+		c13FullScan(a, rl, fn)
 		// the column object of the iteration
 		co := rl.columnObject()
 		if !a.need(co != nil, rule, "ColumnData of the iteration (constructor call or composite literal) in "+fn) {
